@@ -2,6 +2,7 @@
 // accept() runs (all hooks overridden / only the seven sinks overridden), and
 // the result of util::view<K> for every leaf interface K.
 #include "zoo.h"
+#include <new>
 #include <cstdio>
 #include <map>
 
@@ -39,19 +40,39 @@ static std::string join(const std::vector<std::string>& v)
    return s.empty() ? "-" : s;
 }
 
+static void report(const std::string& lbl, const ipr::Node& n);
+
 int main()
 {
    iprv::Zoo zoo;
    zoo.build();
-   for (auto& e : zoo.nodes) {
-      auto& n = *e.node;
+   for (auto& e : zoo.nodes) report(e.label, *e.node);
+   // nodes of DIFFERENT classes that live one after the other at the SAME address (storage reuse after a node dies):
+   // the answers must depend on the node, not on what used to be at that address
+   {
+      alignas(64) static unsigned char slot[1024];
+      auto& str = zoo.lex.get_string(u8"reused");
+      for (int round = 0; round < 3; ++round) {
+         { auto* a = new (slot) ipr::impl::Identifier(str); report("reuse:Identifier#" + std::to_string(round), *a); a->~Identifier(); }
+         { auto* a = new (slot) ipr::impl::Operator(str); report("reuse:Operator#" + std::to_string(round), *a); a->~Operator(); }
+         { auto* a = new (slot) ipr::impl::Comment(str); report("reuse:Comment#" + std::to_string(round), *a); a->~Comment(); }
+         { auto* a = new (slot) ipr::impl::Suffix(zoo.lex.get_identifier(u8"km")); report("reuse:Suffix#" + std::to_string(round), *a); a->~Suffix(); }
+         { auto* a = new (slot) ipr::impl::Ctor_name(zoo.lex.int_type()); report("reuse:Ctor_name#" + std::to_string(round), *a); a->~Ctor_name(); }
+         { auto* a = new (slot) ipr::impl::Dtor_name(zoo.lex.int_type()); report("reuse:Dtor_name#" + std::to_string(round), *a); a->~Dtor_name(); }
+      }
+   }
+}
+
+static void report(const std::string& lbl, const ipr::Node& n)
+{
+   {
       All_visitor all; n.accept(all);
       Sink_visitor sk; n.accept(sk);
       std::vector<std::string> views;
 #define LEAF(K) if (auto p = ipr::util::view<ipr::K>(n)) { views.push_back(#K); if (static_cast<const ipr::Node*>(p) != &n) views.push_back("WRONG-NODE"); }
 #include "leaves.def"
 #undef LEAF
-      std::string label = e.label;
+      std::string label = lbl;
       for (auto& c : label) if (c == ' ') c = '_';
       std::printf("%s cat=%s full=%s sinks=%s views=%s\n", label.c_str(), cat_name(n.category),
                   join(all.ran).c_str(), join(sk.ran).c_str(), join(views).c_str());
